@@ -18,8 +18,10 @@ EXTENDS PositionOps, TLC
 
 CONSTANTS Layers, MaxPer, MaxNodes, Widths, MaxIn, NS
 
-VARIABLE G
-vars == <<G>>
+VARIABLES G,
+          ready     \* FALSE in the initial states, TRUE after the one step: the invariants are evaluated on the successor states,
+                    \* i.e. by TLC's worker threads and not by the single thread that enumerates the initial states
+vars == <<G, ready>>
 
 \* node numbering: layer by layer, left to right
 Shapes == [1..Layers -> 1..MaxPer]
@@ -42,29 +44,53 @@ Mk(sh, ws, vs, E) ==
      inl |-> [n \in 1..k |-> SelectSeq([i \in DOMAIN es |-> i], LAMBDA i : es[i][2] = n)],
      layers |-> [l \in 1..Layers |-> NodesOfLayer(sh, l)]]
 \* helper nodes: the zero-width nodes of the inner layers
-Init == \E sh \in {s \in Shapes : K(s) <= MaxNodes} :
+Init == ready = FALSE /\ \E sh \in {s \in Shapes : K(s) <= MaxNodes} :
           \E E \in {F \in SUBSET AllPairs(sh) : \A n \in 1..K(sh) : Cardinality({p \in F : p[2] = n}) <= MaxIn} :
              \E ws \in [1..K(sh) -> Widths] :
                 G = Mk(sh, ws, [n \in 1..K(sh) |-> IF ws[n] = 0 /\ n > sh[1] /\ n <= K(sh) - sh[Layers] THEN 1 ELSE 0], E)
-Next == UNCHANGED G
+Next == ~ready /\ ready' = TRUE /\ UNCHANGED G
 Spec == Init /\ [][Next]_vars
 
 Sink == SinkColoringX2(G, NS)
 Adjacent == {<<G.layers[l][j], G.layers[l][j + 1]>> : l \in DOMAIN G.layers, j \in 1..(MaxPer - 1)} \cap ((1..G.k) \X (1..G.k))
 AdjPairs == UNION {{<<G.layers[l][j], G.layers[l][j + 1]>> : j \in 1..(Len(G.layers[l]) - 1)} : l \in DOMAIN G.layers}
-SinkTerminates == Sink.finished
-SinkSeparates == \A p \in AdjPairs : Sink.x[p[1]] + 2 * G.w[p[1]] + 2 * NS <= Sink.x[p[2]]
-SinkKeepsOrder == \A p \in AdjPairs : Sink.x[p[1]] <= Sink.x[p[2]]
+SinkTerminates == ready => Sink.finished
+SinkSeparates == ready => \A p \in AdjPairs : Sink.x[p[1]] + 2 * G.w[p[1]] + 2 * NS <= Sink.x[p[2]]
+SinkKeepsOrder == ready => \A p \in AdjPairs : Sink.x[p[1]] <= Sink.x[p[2]]
 VX == VAlignX2(G, NS)
 PX == PackRightX2(G, NS)
-ExactSpacing == \A p \in AdjPairs : /\ VX[p[2]] = VX[p[1]] + 2 * G.w[p[1]] + 2 * NS
-                                    /\ PX[p[2]] = PX[p[1]] + 2 * G.w[p[1]] + 2 * NS
+ExactSpacing == ready => \A p \in AdjPairs : /\ VX[p[2]] = VX[p[1]] + 2 * G.w[p[1]] + 2 * NS
+                                             /\ PX[p[2]] = PX[p[1]] + 2 * G.w[p[1]] + 2 * NS
 First(l) == G.layers[l][1]
 Last(l) == G.layers[l][Len(G.layers[l])]
-VAlignCentres == \A l1, l2 \in DOMAIN G.layers :
+VAlignCentres == ready => \A l1, l2 \in DOMAIN G.layers :
     VX[First(l1)] + VX[Last(l1)] + 2 * G.w[Last(l1)] = VX[First(l2)] + VX[Last(l2)] + 2 * G.w[Last(l2)]
-PackRightAligns == /\ \A l1, l2 \in DOMAIN G.layers : PX[Last(l1)] + 2 * G.w[Last(l1)] = PX[Last(l2)] + 2 * G.w[Last(l2)]
-                   /\ MinOf({PX[n] : n \in 1..G.k}) = 0
-VAlignLeftmostZero == MinOf({VX[n] : n \in 1..G.k}) = 0
-Goal_NarrowRightOfWide == ~(\E p \in AdjPairs : G.w[p[1]] > G.w[p[2]] /\ G.w[p[2]] = 0)
+PackRightAligns == ready => /\ \A l1, l2 \in DOMAIN G.layers : PX[Last(l1)] + 2 * G.w[Last(l1)] = PX[Last(l2)] + 2 * G.w[Last(l2)]
+                            /\ MinOf({PX[n] : n \in 1..G.k}) = 0
+VAlignLeftmostZero == ready => MinOf({VX[n] : n \in 1..G.k}) = 0
+\* ---- the network-simplex positioner (NSPositionOps) on the same graphs; widths and NS in whole units (U = 1)
+NP == INSTANCE NSPositionOps WITH ACCUMULATE <- FALSE, RESET_TREE <- TRUE
+NPA == NP!AuxGraph(G, NS, 4, 1)
+NPB == NP!RunToBalance(NPA.es, NPA.NN, NP!InitState(NPA.es, NPA.NN), 28 * G.k, 600)     \* on entering the balancing phase
+NPD == NP!HBalanceStep(NPA.es, NPA.NN, NPB)
+NPX == NP!XFromRanks(G, NPD.rank, 1)
+\* the pipeline positions one connected component at a time (on a disconnected graph the auxiliary graph can be disconnected too,
+\* and the real code then panics in incidentNonTreeEdge, like the model); NSConn makes every NSPos invariant conditional on that
+RECURSIVE UReach(_)
+UReach(S) == LET T == S \cup {G.et[i] : i \in {j \in DOMAIN G.ef : G.ef[j] \in S}} \cup {G.ef[i] : i \in {j \in DOMAIN G.ef : G.et[j] \in S}}
+             IN IF T = S THEN S ELSE UReach(T)
+NSConn == UReach({1}) = 1..G.k
+NSPosFinishes == (ready /\ NSConn) => NPB.phase = "balance" /\ ~NPB.stuck /\ ~NPB.capped
+NSPosTreeRight == (ready /\ NSConn) => NP!IsSpanningTree(NPA.es, NPA.NN, NPB.tree) /\ \A e \in NPB.tree : NP!Slack(NPA.es, e, NPB.rank) = 0 /\ NPB.cut[e] >= 0
+NSPosFeasible == (ready /\ NSConn) => NP!Feasible(NPA.es, NPB.rank) /\ NP!Feasible(NPA.es, NPD.rank)
+NSPosBalanceKeepsObjective == (ready /\ NSConn) => NP!TotalLen(NPA.es, NPD.rank) = NP!TotalLen(NPA.es, NPB.rank)
+\* neighbours keep their order and their centres are at least round(w/2 + w'/2 + NS) apart: at most half a unit of overlap
+NSPosSeparates == (ready /\ NSConn) => \A p \in AdjPairs : NPX[p[1]] + 2 * G.w[p[1]] + 2 * NS - 1 <= NPX[p[2]]
+NSPosSeparatesExactly == (ready /\ NSConn) => \A p \in AdjPairs : (G.w[p[1]] + G.w[p[2]]) % 2 = 0 => NPX[p[1]] + 2 * G.w[p[1]] + 2 * NS <= NPX[p[2]]
+NSPosLeftmostZero == (ready /\ NSConn) => MinOf({NPX[n] : n \in 1..G.k}) = 0
+\* an edge between two nodes that are alone in their layers is drawn vertically (centres coincide)
+Alone(n) == Len(G.layers[G.layer[n] + 1]) = 1
+NSPosStraightensChains == (ready /\ NSConn /\ \A n \in 1..G.k : Alone(n)) => \A i \in DOMAIN G.ef : NPX[G.ef[i]] + G.w[G.ef[i]] = NPX[G.et[i]] + G.w[G.et[i]]
+Goal_NSPosBalanceMoves == (ready /\ NSConn) => NPD.rank = NP!Normalize(NPA.NN, NPB.rank)
+Goal_NarrowRightOfWide == ~(ready /\ \E p \in AdjPairs : G.w[p[1]] > G.w[p[2]] /\ G.w[p[2]] = 0)
 =============================================================================
